@@ -99,7 +99,7 @@ class ExprMixin:
 
     def dict_nonempty(self, v, st):
         k = v.t.k.fresh(fresh_name('dk'))
-        has = z3.Select(st.h(self.eng.k_dhas(v.t.k)), v.z)
+        has = z3.Select(st.h(self.eng.k_dhas(v.t.k, v.t.v)), v.z)
         return z3.Exists([k], z3.Select(has, k))
 
     def as_seq(self, v, st):
@@ -561,7 +561,7 @@ class ExprMixin:
             return zor([self.eq(x, e, st) for e in c.aux])
         t = c.t
         if isinstance(t, T.Dict):
-            has = self.rd(st, self.eng.k_dhas(t.k), c.z)
+            has = self.rd(st, self.eng.k_dhas(t.k, t.v), c.z)
             return z3.Select(has, coerce(x, t.k).z)
         if isinstance(t, T.Set):
             return z3.Select(c.z, coerce(x, t.elem).z)
@@ -589,7 +589,7 @@ class ExprMixin:
 
     def getattr(self, obj, attr, st, n=None):
         t = obj.t
-        if isinstance(t, T.Ref) or (t.reflike and attr in self.eng.prop.fields):
+        if isinstance(t, T.Ref) or (t.reflike and attr in self.eng.prop.field_variants):
             self.nonnull(obj, st)
             if isinstance(t, T.Ref) and t.cls != '$any':
                 cv = self.eng.class_const(t.cls, attr)
@@ -598,8 +598,9 @@ class ExprMixin:
                 pc = self.eng.find_prop(t.cls, attr)
                 if pc is not None:
                     return self.call_contract(pc, [obj], {}, st, n)
-            ft = self.eng.field_type(attr)
-            z = self.rd(st, self.eng.k_field(attr), obj.z)
+            fid = self.eng.fid(attr, t.cls if isinstance(t, T.Ref) else None)
+            ft = self.eng.field_type(fid)
+            z = self.rd(st, self.eng.k_field(fid), obj.z)
             if ft.reflike and (not self.spec or not self.involves_bound([z])):
                 st.assume(z <= st.h(('alloc',)))
                 st.assume(z >= 0)
@@ -632,7 +633,7 @@ class ExprMixin:
         if isinstance(t, T.Dict):
             self.nonnull(obj, st, 'subscript')
             k = coerce(idx, t.k)
-            has = self.rd(st, self.eng.k_dhas(t.k), obj.z)
+            has = self.rd(st, self.eng.k_dhas(t.k, t.v), obj.z)
             self.raise_if(st, z3.Not(z3.Select(has, k.z)), 'KeyError', 'dict lookup')
             z = z3.Select(self.rd(st, self.eng.k_dval(t.k, t.v), obj.z), k.z)
             return self.loaded(SV(t.v, z), st)
